@@ -117,5 +117,14 @@ for prefix, owner in (("components", "fbc"), (None, "robot")):
         v = nt.getEntry(f"{base}/{k}").getValue().value()
         if (list(v) if isinstance(val, list) else v) != val: fail(f"feedback {base}/{k} holds {v!r}, expected {val!r}")
     if nt.getTopic(f"{base}/plain").exists() or nt.getTopic(f"{base}/get_plain").exists(): fail("an undecorated method was published")
+# a type hint declared on a BASE class applies to a tunable defined on the subclass (typing.get_type_hints follows the MRO)
+class _HintBase:
+    speed: float
+class _HintSub(_HintBase):
+    speed = tunable(0)
+_hs = _HintSub(); setup_tunables(_hs, "hint_inherit")
+if nt.getTopic("/components/hint_inherit/speed").getTypeString() != "double":
+    fail(f"a tunable whose type hint (float) is declared on the base class got the topic type {nt.getTopic('/components/hint_inherit/speed').getTypeString()!r} from its int default")
+n += 1
 print("not reproduced in", n, "cases")
 print("STANDIN-JSON " + json.dumps({"bounded": True, "evaluations": n, "bound": "40 random classes x 3 owner kinds x 9 value types x 2 instances; 7 feedback methods x 2 owners"}))
